@@ -32,7 +32,14 @@ static void oracle_rel(const vcfg *c, const uint8_t *f, size_t n) {
         rel_mc_off[s] = mc_off; rel_mc_n[s] = mc_n; rel_mc_calls[s] = mc_calls;
     } else {
         V_ASSERT(rel_len[s] == n, "C02,C09,C17: same frame length in both worlds");
-        if (in.j < n) V_ASSERT(rel_has[s] && rel_byte[s] == f[in.j], "C02,C09,C17: transmitted bytes identical in both worlds (every byte determined by frames received and configuration)");
+#ifdef V_MEMCPY_RECORD
+        /* large-property payload: the data objects of the two worlds are distinct platform objects (same bytes by assumption);
+         * header and length field are compared byte-wise, the payload through its source range */
+        if (in.j < n && in.j < 34)
+#else
+        if (in.j < n)
+#endif
+            V_ASSERT(rel_has[s] && rel_byte[s] == f[in.j], "C02,C09,C17: transmitted bytes identical in both worlds (every byte determined by frames received and configuration)");
         V_ASSERT(rel_mc_calls[s] == mc_calls && rel_mc_n[s] == mc_n && rel_mc_off[s] == mc_off, "C02,C09,C17: same payload source range in both worlds");
     }
 }
